@@ -73,6 +73,15 @@ CLAIMED['C13'] = ("the rows built by the real BuildBinaryResultset/AppendBinaryV
 CLAIMED['C10'] = ("every namespace the real Namespace.Verify accepts is loaded by the real NewRouter without error or panic, the loaded rule lists each sub table once in exactly one slice, and the rule's sharding function (any int64 key) names a listed table: one hash/mod/range/global rule with symbolic locations (-2..3 per entry), slice lists, row limit and default slice; two rules with case-varying table / parent names and linked rules; date_year / date_month rules with symbolic range digits and date_day rules from concrete forms; mycat and global rules over enumerated database lists and partition parameters",
     "the rest of the namespace (users, slices, charset) is a fixed valid fixture; lists of at most 3 locations / 2 date ranges / 2 rules; mycat string/murmur/padding sharding functions are not run on keys here (C08); global rules are excluded from the duplicate-database assertion (the stock configuration repeats the logical database); known finding C10-empty-default-slice-accepted")
 
+CLAIMED['C01'] = ("for a condition tree built as an AST over the sharding column id and another column (leaf, NOT(leaf), leaf AND leaf2, leaf OR leaf2; thorough: deeper trees; leaves: six comparison operators in both orientations, [NOT] IN, [NOT] BETWEEN, comparison on the other column) the real handleComparisonExpr + RouteResult.Inter keep the sub table that the rule's own FindTableIndex gives to any row (symbolic int64 key) satisfying the condition: range rule (3 tables, literals symbolic in -5..305), hash and mod rules (4 tables, literals any int64), date_year (thorough: date_month, date_day) rules with enumerated date literals and rows",
+    "the AST is built by the harness, not parsed from text (literal nodes carry symbolic values, which the lexer cannot produce); JOIN ... ON conditions, subqueries, linked tables, mycat rules and string keys on numeric rules are not covered; date literals are enumerated (package time parses them); the IN-list rewrite per sub table is not compared")
+
+CLAIMED['C03'] = ("INSERT / REPLACE ... VALUES (1..4 rows) and INSERT ... SET statements parsed by the real parser and planned by the real BuildPlan on range, hash and mod rules: a statement with an unroutable sharding value (signed literal, arithmetic, NULL, function call, key outside the ranges) is rejected; otherwise every row appears in exactly one generated statement, that statement targets the sub table (and slice) the rule's own FindTableIndex gives to the row's key (symbolic int64 literals)",
+    "literal nodes get their symbolic values after parsing and (*ValueExpr).Restore is replaced by a token writer (number formatting is not modelled); global tables (C04), date and mycat rules, the global sequence column and ON DUPLICATE KEY (C05) are not covered; the execution of the generated statements is not covered")
+
+CLAIMED['C38'] = ("the real Server.onConn, given a connection whose handshake response is one packet of arbitrary symbolic bytes (15 lengths between 0 and 40, right or wrong sequence id) followed by end of stream, returns without a panic escaping the connection goroutine and closes the connection; the real Session.Run / ExecuteCommand, given one command packet (statement execute / send-long-data / close / reset with symbolic ids and payloads, field list, init db, ping, unknown commands) of 0..12 arbitrary bytes on an authenticated session with a prepared statement, answers or closes without an escaping panic and leaves the session usable or closed",
+    "newSession is replaced by a constructor without the *net.TCPConn assertion; SHA-1/SHA-256 uninterpreted; handleQuery (COM_QUERY parsing and planning) is a recorder: arbitrary SQL text is not explored; packets longer than 40 bytes, multi-packet payloads and process-level effects (memory exhaustion, goroutine leaks) are outside the bound; 'hang' is only observed as the instruction budget")
+
 NA_REASON = "check not built yet (work in progress; see DESIGN.md section 3 for the planned harness)"
 NA = {}
 
